@@ -156,7 +156,8 @@ def main(argv=None):
     with ProcessPoolExecutor(max_workers=a.jobs, mp_context=ctxmp, initializer=_worker_init) as ex:
         def submit(ti, prefix, vals, trace):
             kid, p = tasks[ti]
-            f = ex.submit(_work, (kid, p, prefix, vals, opts, 40, 15.0, trace))
+            small = len(futs) < 2 * a.jobs
+            f = ex.submit(_work, (kid, p, prefix, vals, opts, 6 if small else 40, 4.0 if small else 15.0, trace))
             futs[f] = ti
         for ti in order:
             submit(ti, [], {}, True)
@@ -249,46 +250,68 @@ def main(argv=None):
     violations = []
     knownhits = []
     unrepro = []
+
+    def fid_verdict(g, obj, r):
+        if r['exc']:
+            return 'concrete run raised %s: %s' % (r['exc'][0], r['exc'][1])
+        if r['vacuous']:
+            return 'concrete run violates an assume()'
+        if any(not v for _, v in r['obs']):
+            lab = [l for l, v in r['obs'] if not v]
+            if not any(cx['label'] in lab for cx in g['cex']):
+                return 'obligation(s) %s false in concrete run but discharged symbolically' % lab
+            return None
+        if r.get('observed_error'):
+            return 'observed values not serialisable: ' + r['observed_error']
+        exp = obj['observed']
+        got = r['observed']
+        if len(exp) != len(got) or any(e[0] != o[0] for e, o in zip(exp, got)):
+            return 'observation sequence differs: %s vs %s' % ([e[0] for e in exp], [o[0] for o in got])
+        for e, o in zip(exp, got):
+            if not close(e[1], o[1]):
+                return 'observed %s: symbolic %s vs concrete %s' % (e[0], str(e[1])[:200], str(o[1])[:200])
+        return None
+
+    def cex_verdict(obj, r):
+        label = obj['label']
+        if label.startswith('exception:'):
+            return bool(r['exc']) and r['exc'][0] == label.split(':', 1)[1]
+        if any(l == label and not v for l, v in r['obs']):
+            return True
+        # the concrete run crashed before reaching the obligation: still a real failure of the kernel on these inputs
+        return bool(r['exc'])
+
     if results is not None:
-        for (kind, ti, obj), r in zip(index, results):
+        # second opinion in the other number mode (floats <-> Fractions) for everything that did not match at first:
+        # the library mixes float constants into Fraction arithmetic, and floats can flip a branch exactly at a boundary
+        retry = []
+        for i, ((kind, ti, obj), r) in enumerate(zip(index, results)):
+            g = agg[ti]
+            bad = fid_verdict(g, obj, r) if kind == 'fid' else (None if cex_verdict(obj, r) else 'norepro')
+            if bad:
+                retry.append(i)
+        alt = {}
+        if retry:
+            try:
+                altres = run_runner([dict(cases[i], alt_mode=True) for i in retry], a.jobs)
+                alt = dict(zip(retry, altres))
+            except Exception as e:
+                incon.append('concrete runner (second mode) failed: %s' % e)
+        for i, ((kind, ti, obj), r) in enumerate(zip(index, results)):
             g = agg[ti]
             if kind == 'fid':
-                bad = None
-                if r['exc']:
-                    bad = 'concrete run raised %s: %s' % (r['exc'][0], r['exc'][1])
-                elif r['vacuous']:
-                    bad = 'concrete run violates an assume()'
-                elif any(not v for _, v in r['obs']):
-                    # an obligation that the solver discharged is false concretely -> only a mismatch if no cex pending
-                    lab = [l for l, v in r['obs'] if not v]
-                    if not any(cx['label'] in lab for cx in g['cex']):
-                        bad = 'obligation(s) %s false in concrete run but discharged symbolically' % lab
-                elif r.get('observed_error'):
-                    bad = 'observed values not serialisable: ' + r['observed_error']
-                else:
-                    exp = obj['observed']
-                    got = r['observed']
-                    if len(exp) != len(got) or any(e[0] != o[0] for e, o in zip(exp, got)):
-                        bad = 'observation sequence differs: %s vs %s' % ([e[0] for e in exp], [o[0] for o in got])
-                    else:
-                        for e, o in zip(exp, got):
-                            if not close(e[1], o[1]):
-                                bad = 'observed %s: symbolic %s vs concrete %s' % (e[0], str(e[1])[:200], str(o[1])[:200])
-                                break
+                bad = fid_verdict(g, obj, r)
+                if bad and i in alt and fid_verdict(g, obj, alt[i]) is None:
+                    bad = None
                 if bad:
                     fid_bad.append((g['kernel'], g['params'], obj['inputs'], bad))
                 else:
                     fid_ok += 1
             else:
-                label = obj['label']
-                if label.startswith('exception:'):
-                    repro = bool(r['exc']) and r['exc'][0] == label.split(':', 1)[1]
-                else:
-                    repro = any(l == label and not v for l, v in r['obs'])
-                    if not repro and r['exc']:
-                        # the concrete run crashed before reaching the obligation: still a real failure of the kernel
-                        repro = True
-                        label = label + '/exception:' + r['exc'][0]
+                repro = cex_verdict(obj, r)
+                if not repro and i in alt and cex_verdict(obj, alt[i]):
+                    repro = True
+                    r = alt[i]
                 if repro:
                     kf = match_known(known, a.prop, g['kernel'], obj['label'], g['params'], obj['inputs'])
                     rec = dict(property=a.prop, kernel=g['kernel'], params=g['params'], label=obj['label'], inputs=obj['inputs'],
@@ -420,13 +443,17 @@ def _z3v():
 def do_replay(path):
     rec = json.load(open(path))
     case = dict(kernel=rec['kernel'], params=rec['params'], inputs=rec['inputs'])
-    r = run_runner([case], 1)[0]
     label = rec['label']
-    if label.startswith('exception:'):
-        repro = bool(r['exc']) and r['exc'][0] == label.split(':', 1)[1]
-    else:
-        repro = any(l == label and not v for l, v in r['obs']) or bool(r['exc'])
-    print(json.dumps(r, indent=1)[:3000])
+    repro = False
+    for c in (case, dict(case, alt_mode=True)):
+        r = run_runner([c], 1)[0]
+        if label.startswith('exception:'):
+            repro = bool(r['exc']) and r['exc'][0] == label.split(':', 1)[1]
+        else:
+            repro = any(l == label and not v for l, v in r['obs']) or bool(r['exc'])
+        print(json.dumps(r, indent=1)[:3000])
+        if repro:
+            break
     if repro:
         print('VIOLATION property=%s replay=%s' % (rec['property'], path))
         return 1
